@@ -145,6 +145,14 @@ Definition contains (s : state) (ip : list N) : bool :=
        | Some ip4 => scan s (be32 ip4)
        end.
 
+(* ---- Contains at the pinned commit 8f4ffe7, before fix 6ec3904: [len(ip) != net.IPv4len] instead of
+   To4, so the 16-byte form of an IPv4 address was never found.  Kept only for the refutation
+   C11_pinned_refuted; nothing else uses it. ---- *)
+Definition contains_pinned (s : state) (ip : list N) : bool :=
+  if match_all s then true
+  else if negb (length ip =? 4)%nat then false
+  else scan s (be32 ip).
+
 (* ---- histories ---- *)
 From Glb Require Import Lib.CidrSet.
 
